@@ -166,7 +166,8 @@ type Result struct {
 	OpIndex    []int      // OpNodes[i] encodes History.Ops[OpIndex[i]]
 	ModelPanic int        // index into OpNodes of the panicking operation (-1)
 	Content    *Content   // intended content (before the panicking operation, if any)
-	RootsAt    []string   // roots registered (in order) by the panicking Add/Remove, for the F11 classifier
+	VisitsF11  bool       // after some executed Add/Remove the services present want one ServeMux pattern twice (class of the repaired finding F11)
+	SharedOps  int        // number of executed Add/Remove operations after which that is the case
 	FreshPanic bool
 	FreshVal   string
 	Answers    [][4]string // per probe: histDispatch, freshDispatch, histServe, freshServe
@@ -205,22 +206,11 @@ func Exec(h *History) *Result {
 			node = sx.K("add", p.List...)
 			call = func() { c.Add(ws) }
 			after = func() { ct.apply(h.Pool, op, "") }
-			res.RootsAt = nil
-			for _, j := range ct.Services {
-				res.RootsAt = append(res.RootsAt, NormRoot(h.Pool[j].Root))
-			}
-			res.RootsAt = append(res.RootsAt, NormRoot(h.Pool[op.Svc].Root))
 		case "remove":
 			ws := obj(op.Svc)
 			root := ws.RootPath()
 			node = sx.K("remove", sx.H(root))
 			call = func() { c.Remove(ws) }
-			res.RootsAt = nil
-			for _, j := range ct.Services {
-				if NormRoot(h.Pool[j].Root) != root {
-					res.RootsAt = append(res.RootsAt, NormRoot(h.Pool[j].Root))
-				}
-			}
 			after = func() { ct.apply(h.Pool, op, root) }
 		case "route":
 			ws := obj(op.Svc)
@@ -261,6 +251,16 @@ func Exec(h *History) *Result {
 			return res
 		}
 		after()
+		if op.Kind == "add" || op.Kind == "remove" {
+			var roots []string
+			for _, j := range ct.Services {
+				roots = append(roots, NormRoot(h.Pool[j].Root))
+			}
+			if PrefixesCollide(roots) {
+				res.VisitsF11 = true
+				res.SharedOps++
+			}
+		}
 		// traffic between the operations (answers not compared here: the final probes are): a
 		// container that caches anything derived from its registration state at serving time must
 		// still answer like a fresh one afterwards
@@ -271,7 +271,6 @@ func Exec(h *History) *Result {
 			}
 		}
 	}
-	res.RootsAt = nil
 	res.Content = ct
 	// the fresh container: same services (new objects, same declarations) in the same order, then the handlers
 	var fc *restful.Container
